@@ -282,7 +282,8 @@ impl<'tcx> TyGenContext<'_, 'tcx> {
                         };
                         let lt_name = struct_def.lifetimes.fmt_lifetime(lt);
                         Some(
-                            format!("diplomatRuntime.CleanupArena.maybeCreateWith(functionCleanupArena, ...appendArrayMap['{lt_name}AppendArray'])")
+                            // A method whose output does not borrow from this struct passes an empty map
+                            format!("diplomatRuntime.CleanupArena.maybeCreateWith(functionCleanupArena, ...(appendArrayMap['{lt_name}AppendArray'] || []))")
                         )
                     } else {
                         // If there is no lifetime, this is owned, so we can clean up this field as soon as we're done passing the struct into WASM.
